@@ -310,3 +310,21 @@ pub fn run_api_fuzz(l: &[i128]) -> Vec<i128> {
         Err(_) => vec![-99],
     }
 }
+
+/// args: w h -> -1 (no tiling needed) | x y w h of every tile, in order
+pub fn run_tiles(l: &[i128]) -> Vec<i128> {
+    if l.len() != 2 {
+        return vec![-3];
+    }
+    #[cfg(tiny_skia_verif)]
+    {
+        return match tiny_skia::verif_hooks::draw_tiles(l[0] as u32, l[1] as u32) {
+            None => vec![-1],
+            Some(ts) => ts.iter().flat_map(|t| vec![t.0 as i128, t.1 as i128, t.2 as i128, t.3 as i128]).collect(),
+        };
+    }
+    #[allow(unreachable_code)]
+    {
+        vec![-8]
+    }
+}
